@@ -301,6 +301,18 @@ theorem step_task_partial {P : Type} (c : Cli P) (i : Input P) (c' : Cli P) (evs
     · simp at h
     · simp only [Option.some.injEq, Prod.mk.injEq] at h
       rw [← h.1]; exact ⟨htask, rfl⟩
+  | connectNoWait s acc =>
+    simp only [step] at h
+    split at h
+    · simp at h
+    · simp only [Option.some.injEq, Prod.mk.injEq] at h
+      rw [← h.1]; exact ⟨htask, rfl⟩
+  | nsEnd n =>
+    simp only [step] at h
+    split at h
+    · simp only [Option.some.injEq, Prod.mk.injEq] at h
+      rw [← h.1]; exact ⟨htask, rfl⟩
+    · simp at h
   | lose cause sc =>
     simp only [step] at h
     simp only [effortFailed] at hclean
@@ -316,6 +328,61 @@ theorem step_task_partial {P : Type} (c : Cli P) (i : Input P) (c' : Cli P) (evs
       simpa using hclean
     · simp only [Option.some.injEq, Prod.mk.injEq] at h
       rw [← h.1]; exact ⟨htask, rfl⟩
+
+/-- What `connect()` stored is written by the application's `connect()` calls only: the server
+    ending one namespace (the client stays up on the others) and any loss leave it as it is. -/
+theorem stored_kept {P : Type} (c c' : Cli P) (i : Input P) (evs : List (Ev P))
+    (hi : (∀ s, i ≠ .connect s) ∧ (∀ s acc, i ≠ .connectNoWait s acc))
+    (h : step c i = some (c', evs)) : c'.stored = c.stored := by
+  cases i with
+  | connect s => exact absurd rfl (hi.1 s)
+  | connectNoWait s acc => exact absurd rfl (hi.2 s acc)
+  | nsEnd n =>
+    simp only [step] at h
+    split at h
+    · simp only [Option.some.injEq, Prod.mk.injEq] at h
+      rw [← h.1]
+    · simp at h
+  | lose cause sc =>
+    simp only [step] at h
+    cases hc : c.connected <;> cases hs : c.stored <;> simp only [hc, hs] at h <;>
+      try (simp at h; done)
+    split at h <;>
+      (simp only [Option.some.injEq, Prod.mk.injEq] at h; rw [← h.1])
+
+/-- `same_parameters` over the life of a connection: whatever happened since `connect()` stored
+    its parameters — namespaces refused at connect time, namespaces ended by the server — every
+    `connect()` made by the effort a loss starts is called with exactly the stored parameters
+    (url, headers, auth, transports, path: `conn`; and the full namespace list `nss`, including the
+    namespaces that are not connected any more). -/
+theorem lose_same_parameters {P : Type} (c c' : Cli P) (cause : Cause) (sc : Script)
+    (evs : List (Ev P)) (p : Stored P) (h : step c (.lose cause sc) = some (c', evs))
+    (hp : Ev.attempt p ∈ evs) : c.stored = some p := by
+  simp only [step] at h
+  cases hc : c.connected <;> cases hs : c.stored <;> simp only [hc, hs] at h <;>
+    try (simp at h; done)
+  rename_i s
+  have hh : ∀ (l : List Ns), Ev.attempt p ∉ l.flatMap (fun n =>
+      (Ev.handler (.disconnect (reasonOf cause)) n : Ev P) ::
+        (if willReconnect c.cfg (eioStateDuring cause) then [] else [.handler .disconnectFinal n])) := by
+    intro l hm
+    simp only [List.mem_flatMap] at hm
+    obtain ⟨n, _, hn⟩ := hm
+    by_cases hw : willReconnect c.cfg (eioStateDuring cause) = true <;> simp [hw] at hn
+  split at h
+  · simp only [Option.some.injEq, Prod.mk.injEq] at h
+    rw [← h.2] at hp
+    simp only [List.mem_append] at hp
+    rcases hp with (hp | hp) | hp
+    · exact absurd hp (hh _)
+    · simp at hp
+    · rw [same_parameters c.cfg sc.rands sc.abortAt sc.fuel s sc.outs p hp]
+  · simp only [Option.some.injEq, Prod.mk.injEq] at h
+    rw [← h.2] at hp
+    simp only [List.mem_append] at hp
+    rcases hp with hp | hp
+    · exact absurd hp (hh _)
+    · simp at hp
 
 /-- Outside the region of the known finding: after a history in which every effort ended
     connected, no effort is recorded as in flight … -/
@@ -362,6 +429,19 @@ def scSecond : Script := ⟨fun k => if k = 1 then .served [] else .transport, f
 def stored0 : Stored Nat := ⟨7, ["/".toList]⟩
 def cfgOne : Cfg := ⟨true, 1, 1, 5, 0⟩
 def cfgThree : Cfg := ⟨true, 3, 1, 5, 0⟩
+
+def storedAB : Stored Nat := ⟨7, ["/a".toList, "/b".toList]⟩
+
+-- non-vacuity: two namespaces, the server ends "/b", the transport is lost: the effort's attempt
+-- carries both namespaces, and afterwards both are connected again
+example :
+    (match run (Cli.init cfgThree : Cli Nat)
+        [.connect storedAB, .nsEnd "/b".toList, .lose .transportError scSecond] with
+     | some (c, evs) => (c.live, c.stored.map (·.nss), countAttempts evs,
+                          evs.any (fun e => match e with | .attempt p => p.nss != storedAB.nss | _ => false))
+     | none => ([], none, 0, true)) =
+    (["/a".toList, "/b".toList], some ["/a".toList, "/b".toList], 3, false) := by decide
+
 
 -- non-vacuity of `next_loss_starts_effort_partial`: an effort that reconnects at its second
 -- attempt, then another accidental loss: the history is clean and a second effort runs (2 + 2
